@@ -98,12 +98,14 @@ func VerifC06Containers(b *Bitmap) []VerifC06Item {
 	return out
 }
 
-// VerifC06OpsOffset returns the position at which unmarshalPilosaRoaring starts
-// to read the op log of data: the end of the container it attached last. It
-// repeats the walk of unmarshalPilosaRoaring over the header and offset
-// sections and may only be called on data that UnmarshalBinary has accepted
-// as Pilosa format.
-func VerifC06OpsOffset(data []byte) int {
+// VerifC06Loaded repeats the walk of unmarshalPilosaRoaring over the header and
+// offset sections of data and returns the containers as that walk attaches
+// them (key order; type and cardinality from the header, contents copied from
+// data), i.e. the bitmap before the op log is replayed, and the position at
+// which the op log starts. It performs no bounds checks of its own and may
+// only be called on data whose header, offset and container sections
+// UnmarshalBinary accepts as Pilosa format.
+func VerifC06Loaded(data []byte) (items []VerifC06Item, opsOffset int) {
 	keyN := int(uint32(data[4]) | uint32(data[5])<<8 | uint32(data[6])<<16 | uint32(data[7])<<24)
 	b := NewSliceBitmap()
 	for i := 0; i < keyN; i++ {
@@ -114,25 +116,48 @@ func VerifC06OpsOffset(data []byte) int {
 		}
 		b.Containers.PutContainerValues(key, h[8], int(uint16(h[10])|uint16(h[11])<<8)+1, true)
 	}
-	opsOffset := headerBaseSize + keyN*12
+	u16 := func(p int) uint16 { return uint16(data[p]) | uint16(data[p+1])<<8 }
+	byKey := map[uint64]VerifC06Item{}
+	opsOffset = headerBaseSize + keyN*12
 	citer, _ := b.Containers.Iterator(0)
 	for i := 0; i < keyN; i++ {
 		o := data[headerBaseSize+keyN*12+i*4:]
 		offset := int(uint32(o[0]) | uint32(o[1])<<8 | uint32(o[2])<<16 | uint32(o[3])<<24)
 		citer.Next()
-		_, c := citer.Value()
+		key, c := citer.Value()
 		if c == nil {
 			continue
 		}
+		it := VerifC06Item{Key: key, Typ: c.typ(), N: int(c.N())}
 		switch c.typ() {
 		case containerRun:
-			runCount := int(uint16(data[offset]) | uint16(data[offset+1])<<8)
+			runCount := int(u16(offset))
+			it.Len = runCount
+			for j := 0; j < runCount*2; j++ {
+				it.Data = append(it.Data, u16(offset+runCountHeaderSize+j*2))
+			}
 			opsOffset = offset + runCountHeaderSize + runCount*interval16Size
 		case containerArray:
+			it.Len = int(c.N())
+			for j := 0; j < int(c.N()); j++ {
+				it.Data = append(it.Data, u16(offset+j*2))
+			}
 			opsOffset = offset + int(c.N())*2
 		case containerBitmap:
+			it.Len = bitmapN
+			for j := 0; j < bitmapN*4; j++ {
+				it.Data = append(it.Data, u16(offset+j*2))
+			}
 			opsOffset = offset + bitmapN*8
 		}
+		byKey[key] = it
 	}
-	return opsOffset
+	citer, _ = b.Containers.Iterator(0)
+	for citer.Next() {
+		key, _ := citer.Value()
+		if it, ok := byKey[key]; ok {
+			items = append(items, it)
+		}
+	}
+	return items, opsOffset
 }
